@@ -216,11 +216,79 @@ def pipeline_property(args, rots, trans, scales):
     return ''
 
 
+def api_spelling_property(rng):
+    """geometry built through the Python API with whole-number coordinates written as integers (Python ints, numpy integer
+    arrays for the transformation vectors) against the same numbers written as floats: rotated, translated and scaled the
+    same way, the two structures have the same segments (1e-12) — nothing may depend on the number type"""
+    from mininec.mininec import Mininec, Wire, Arc, Geo_Container
+    spec = []
+    for t in range(1, rng.randint(1, 3) + 1):
+        if rng.random() < 0.75:
+            p = [rng.randint(-5, 5) for _ in range(3)]
+            q = [p[0] + rng.choice([0, 3, -4, 7]), p[1] + rng.choice([0, 0, 5, -2]), p[2] + rng.choice([25, 10, -6, 4])]
+            spec.append(('w', rng.randint(2, 10), p, q, t))
+        else:
+            spec.append(('a', rng.randint(3, 8), rng.choice([1, 2, 3]), rng.choice([0, 30]), rng.choice([90, 180, 270]), t))
+    ops = []
+    for _ in range(rng.randint(1, 3)):
+        k = rng.choice(['r', 't', 's'])
+        tag = rng.choice([None, None, rng.randint(1, len(spec))])
+        if k == 'r':
+            ops.append(('r', [rng.choice([0, 30, 90, 45, -60]) for _ in range(3)], tag))
+        elif k == 't':
+            ops.append(('t', rng.choice([[0.5, 0.25, 0.75], [1, 2, 3], [0.1, 0, -0.4]]), tag))
+        else:
+            ops.append(('s', rng.choice([0.3, 2, 0.3048, 3]), tag))
+
+    def build(conv):
+        geo = Geo_Container()
+        for o in spec:
+            if o[0] == 'w':
+                geo.append(Wire(o[1], *[conv(x) for x in o[2] + o[3]], 0.001, tag=o[4]))
+            else:
+                geo.append(Arc(o[1], conv(o[2]), conv(o[3]), conv(o[4]), 0.001, tag=o[5]))
+        geo.compute_tags()
+        for key, (k, v, tag) in enumerate(x for x in ops if x[0] != 's'):
+            vv = np.array([conv(x) if float(x) == int(x) else x for x in v])
+            (geo.rotate if k == 'r' else geo.translate)(key + 1, vv, tag)
+        for k, v, tag in ops:
+            if k == 's':
+                geo.scale(conv(v) if float(v) == int(v) else v, tag)
+        m = Mininec(10.0, [g for g in geo.geo])
+        return m
+    try:
+        ma = build(float)
+    except Exception as e:
+        return None, (spec, ops)            # not a valid structure (e.g. coinciding wires)
+    try:
+        mb = build(int)
+    except Exception as e:
+        return 'the structure is accepted with float coordinates and raises %s: %s with the same numbers as integers' % (type(e).__name__, e), (spec, ops)
+    for ga, gb in zip(ma.geo, mb.geo):
+        if len(ga.segments) != len(gb.segments):
+            return 'object %d has %d segments with float and %d with integer coordinates' % (ga.tag, len(ga.segments), len(gb.segments)), (spec, ops)
+        for k, (sa, sb) in enumerate(zip(ga.segments, gb.segments)):
+            for e, (pa, pb) in enumerate(((sa.p1, sb.p1), (sa.p2, sb.p2))):
+                pa, pb = np.array(pa, dtype=float), np.array(pb, dtype=float)
+                if float(np.max(np.abs(pa - pb))) > 1e-12 * max(1.0, float(np.max(np.abs(pa)))):
+                    return ('object %d segment %d end %d is at %s when the coordinates are written as integers and at %s when the same '
+                            'numbers are written as floats (operations %r)' % (ga.tag, k + 1, e + 1, [round(float(x), 6) for x in pb],
+                                                                              [round(float(x), 6) for x in pa], ops)), (spec, ops)
+        if abs(float(ga.r) - float(gb.r)) > 1e-15:
+            return 'object %d radius %r vs %r' % (ga.tag, float(gb.r), float(ga.r)), (spec, ops)
+    return None, (spec, ops)
+
+
 def replay(rp):
     k = rp.get('kind')
     if k == 'pipeline':
         bad = pipeline_property(rp['args'], [tuple(x) for x in rp['rots']], [tuple(x) for x in rp['trans']], [tuple(x) for x in rp['scales']])
         print('replay ->', bad or 'property holds')
+        return 1 if bad else 0
+    if k == 'api-spelling':
+        import random as _random
+        bad, what = api_spelling_property(_random.Random(rp['spelling_seed']))
+        print('replay', what, '->', bad or 'property holds')
         return 1 if bad else 0
     if k == 'wire':
         w, segs = impl_wire(rp['p1'], rp['p2'], rp['n'], rp['r'], rp['segtype'], rp['tmin'], rp['tmax'])
@@ -412,14 +480,23 @@ def run(ck):
         bad = pipeline_property(args, rots, trans, scales)
         if bad:
             viol.append(dict(case, observed=bad))
+    import random as _random
+    for i in range(40 if ck.tier == 'quick' else 600):
+        sseed = rng.randrange(10 ** 9)
+        bad, what = api_spelling_property(_random.Random(sseed))
+        ck.case(('api-spelling', i), True)
+        ck.count('api_spelling_cases')
+        if bad:
+            viol.append(dict(kind='api-spelling', spelling_seed=sseed, observed=bad))
     ck.stats['disagreements'] = len(dis)
     ck.cov['rule'] = ('wires with 1..200 segments, equal / taper end 1 / end 2 / both, radii seg/5..seg/1000, random minimum and '
                       'maximum (accepted and rejected), arcs (incl. negative spans, full circle), helices (all sign combinations, '
-                      'tapered radii), rotation vectors incl. zero angles, key lists with repetitions; distinct = distinct parameter '
+                      'tapered radii), rotation vectors incl. zero angles, key lists with repetitions; helices of 1-9 segments in the pipeline cases; '
+                      'structures built through the API with whole-number coordinates as integers vs floats; distinct = distinct parameter '
                       'classes as listed in the case keys')
     ck.assumptions += ['numpy 3x3 matmul and norm are compared at rtol 1e-12 (summation order may differ)',
                        "Python's float % is modelled as a - b*floor(a/b) for b > 0",
-                       'taper positivity / ratio / min / max clauses are not theorems: they are evaluated on every generated taper (implementation side)']
+                       'taper positivity / ratio / min / max clauses are theorems for the one-sided taper only (C13b); they are evaluated on every generated taper of both kinds (implementation side)']
     seen = set()
     for v in viol:
         key = v['observed'][:40] if v.get('kind') != 'pipeline' else 'pipeline'
